@@ -176,6 +176,21 @@ func cmdCheck(args []string) int {
 		} else {
 			fr = verifyFunc(prog, fi, ct, opts)
 		}
+		if fi != nil && !ct.Pure {
+			if own, ic := refinementPair(prog, fi); own != nil {
+				fr2 := verifyRefine(prog, fi, own, ic, opts)
+				results = append(results, fr2)
+				for _, o := range fr2.Obls {
+					selected = append(selected, o)
+				}
+				for _, s := range fr2.SpecErrors {
+					engineErrors = append(engineErrors, fr2.Key+": contract error: "+s)
+				}
+				if fr2.Crashed != "" {
+					engineErrors = append(engineErrors, fr2.Key+": engine crash: "+fr2.Crashed)
+				}
+			}
+		}
 		for _, l := range fr.UsedLemmas {
 			if !listed[l] {
 				listed[l] = true
